@@ -8,6 +8,7 @@ CONSTANTS
   AsFound_DecorativeUntested = FALSE
   AsFound_DecorativeExcluded = FALSE
   AsFound_TimeAxisFrozen = TRUE
+  AsFound_AcceptanceUsesStepTolerance = FALSE
 INVARIANT TypeOK
 INVARIANT C15_AcceptedIsSteady
 INVARIANT C15_JudgesExactlyNonExcluded
